@@ -27,7 +27,8 @@ def run(seed_dir, check, tier, timeout):
     subprocess.run('cp -r ' + os.environ.get('REPO_SRC', '/repo') + '/placement %s/ && cd %s && git init -q . && '
                    'git apply %s/patch.diff' % (scratch, scratch, seed_dir),
                    shell=True, check=True, capture_output=True)
-    env = dict(os.environ, PLACEMENT_SRC=scratch, VERIF_WORKERS='5')
+    env = dict(os.environ, PLACEMENT_SRC=scratch, VERIF_WORKERS='5',
+               VERIF_EVIDENCE_DIR=scratch + '/evidence')
     t0 = time.time()
     try:
         p = subprocess.run(
